@@ -498,6 +498,24 @@ fn ics20_shim(mut deps: DepsMut, env: Env, msg: ShimMsg) -> AnyResult<Response> 
 // ---------------------------------------------------------------------------------------------
 // contract boxes
 
+/// storage surgery used to synthesise legacy layouts before a real `migrate`
+#[cw_serde]
+pub enum RawSudo {
+    Set { key: Binary, value: Binary },
+    Remove { key: Binary },
+    SetVersion { contract: String, version: String },
+}
+fn raw_sudo(d: DepsMut, _e: Env, m: RawSudo) -> StdResult<Response> {
+    match m {
+        RawSudo::Set { key, value } => d.storage.set(key.as_slice(), value.as_slice()),
+        RawSudo::Remove { key } => d.storage.remove(key.as_slice()),
+        RawSudo::SetVersion { contract, version } => {
+            cw2::set_contract_version(d.storage, contract, version)?;
+        }
+    }
+    Ok(Response::new())
+}
+
 pub fn c_cw20() -> Box<dyn Contract<Empty>> {
     Box::new(
         ContractWrapper::new(
@@ -505,7 +523,8 @@ pub fn c_cw20() -> Box<dyn Contract<Empty>> {
             cw20_base::contract::instantiate,
             cw20_base::contract::query,
         )
-        .with_migrate(cw20_base::contract::migrate),
+        .with_migrate(cw20_base::contract::migrate)
+        .with_sudo(raw_sudo),
     )
 }
 pub fn c_cw20_flaky() -> Box<dyn Contract<Empty>> {
@@ -793,6 +812,19 @@ impl Chain {
         let owner = self.owner.to_string();
         let code = if flaky { self.codes.cw20_flaky } else { self.codes.cw20 };
         self.instantiate(code, &owner, &msg, "cw20", None).ok().expect("cw20")
+    }
+    /// plain cw20-base with the chain owner as contract admin (so that it can be migrated)
+    pub fn new_cw20_admin(&mut self, balances: &[(String, u128)]) -> Addr {
+        let msg = cw20_base::msg::InstantiateMsg {
+            name: "Token".into(),
+            symbol: "TKN".into(),
+            decimals: 6,
+            initial_balances: balances.iter().map(|(a, x)| cw20::Cw20Coin { address: a.clone(), amount: Uint128::new(*x) }).collect(),
+            mint: None,
+            marketing: None,
+        };
+        let owner = self.owner.to_string();
+        self.instantiate(self.codes.cw20, &owner, &msg, "cw20", Some(owner.clone())).ok().expect("cw20")
     }
     pub fn cw20_balance(&self, token: &Addr, addr: &str) -> u128 {
         self.query::<cw20::BalanceResponse, _>(token, &cw20::Cw20QueryMsg::Balance { address: addr.to_string() })
